@@ -113,12 +113,26 @@ func LRGrammarGen(stateful bool) *rapid.Generator[*Grammar] {
 				c.labelN = 0
 			}
 			nB := c.intn(1, 2, "nbases")
+			nullableLevel := false
 			for i := 0; i < nB; i++ {
 				var b *Expr
 				if c.cfg.StateBlocks && c.chance(30, "basestate") {
 					b = &Expr{K: KSeq, Sub: []*Expr{c.stateBlock(), next()}}
 				} else {
 					b = next()
+				}
+				if i == nB-1 && c.chance(12, "nullablebase") {
+					// the last base may match the empty string: A <- A t / b? (the first, empty seed
+					// is still a seed)
+					nullableLevel = true
+					switch c.intn(0, 2, "nullablekind") {
+					case 0:
+						b = &Expr{K: KOpt, Sub: []*Expr{b}}
+					case 1:
+						b = &Expr{K: KStar, Sub: []*Expr{c.consuming()}}
+					default:
+						b = &Expr{K: KLit, Val: []byte{}}
+					}
 				}
 				if c.chance(50, "baseaction") {
 					if c.chance(50, "baselabel") {
@@ -135,7 +149,7 @@ func LRGrammarGen(stateful bool) *rapid.Generator[*Grammar] {
 				r.Display = "level " + name
 			}
 			rules[name] = r
-			c.nullable[name] = false
+			c.nullable[name] = nullableLevel
 			if via != "" {
 				// Vi <- Li u   (u possibly empty), optionally with an action
 				var ve *Expr = &Expr{K: KRef, Name: name}
